@@ -37,6 +37,7 @@ type AttemptPlan struct {
 	FreshStreamer  bool // replica crash+restart: a new Streamer starts from the last accepted label
 	NoCancelCtx    bool // the caller passes context.Background(): nothing can cancel the attempt, it ends by its cause (or by the master closing the connection)
 	RewindTo       bool // before this attempt the application re-points the same Streamer to one of the end labels delivered so far (SetBinlogPosition)
+	EnvPanic       bool // the failing handler / table mapper panics instead of returning its error; the application recovers around Stream
 	SkipRefused    bool // the application skips the transaction its handler refused in the previous attempt: SetBinlogPosition(refused.NextPosition)
 	HandshakeCut   int  // handshake-fin: bytes of the greeting that still arrive
 	ErrorCalls     int  // how many times Error() is called after Stream returned (>=1)
@@ -95,6 +96,7 @@ type AttemptResult struct {
 	MapperCalls               []*MapperCall
 	PacketsTotal              int
 	PacketsDeliv              int
+	EnvPanicked               bool
 	PacketsAtCause            int // packets delivered when the first cause fired (final count if none did)
 	Steps                     int
 	SimTime                   time.Duration
@@ -265,9 +267,16 @@ func (r *Run) handler(tx *gobinlog.Transaction) error {
 	call.Returned = true
 	call.Verdict = verdict
 	call.RetSeq = r.nextSeq()
+	envPanic := verdict != nil && r.att != nil && r.att.Plan.EnvPanic
 	r.mu.Unlock()
+	if envPanic {
+		panic(envPanicValue)
+	}
 	return verdict
 }
+
+// envPanicValue is what a panicking handler / mapper of the environment throws.
+var envPanicValue = fmt.Errorf("sim: the application's callback panicked")
 
 // keptVal is one delivered value slice the consumer holds on to.
 type keptVal struct {
@@ -389,6 +398,7 @@ func scribble(tx *gobinlog.Transaction, snap *SnapTx) string {
 		tx.Events[i] = nil
 	}
 	tx.NowPosition.Filename, tx.NextPosition.Filename = "scribbled", "scribbled"
+	tx.NowPosition.Offset, tx.NextPosition.Offset = 0, 0
 	return note
 }
 
@@ -412,7 +422,14 @@ func (r *Run) MysqlTable(name gobinlog.MysqlTableName) (gobinlog.MysqlTable, err
 	}
 	r.mu.Lock()
 	call.Returned = true
+	envPanic := v.kind == 1 && r.att != nil && r.att.Plan.EnvPanic
+	if envPanic {
+		call.Verdict = "error"
+	}
 	r.mu.Unlock()
+	if envPanic {
+		panic(envPanicValue)
+	}
 	var td *TableDef
 	for _, t := range r.sc.Hist.Tables {
 		if t.DB == name.DbName && t.Name == name.TableName {
@@ -767,7 +784,22 @@ func (r *Run) runAttempt(idx int, plan AttemptPlan) bool {
 	r.mu.Unlock()
 	immediateDone := false
 	call := r.launch(func() {
-		err := r.streamer.Stream(ctx, r.handler)
+		err := func() (err error) {
+			if plan.EnvPanic {
+				// an application that guards its Stream call: its own callback's panic
+				// comes back out of Stream (after Stream's cleanup) and is recovered here
+				defer func() {
+					if p := recover(); p != nil {
+						if p != envPanicValue {
+							panic(p)
+						}
+						att.EnvPanicked = true
+						err = envPanicValue
+					}
+				}()
+			}
+			return r.streamer.Stream(ctx, r.handler)
+		}()
 		r.mu.Lock()
 		att.StreamErr = err
 		att.Returned = true
